@@ -22,7 +22,7 @@ class FdDriver(framing.FramingDriver):
 def fd_instance():
     return Instance('none', [], [
         mk_msg('empty', 1),
-        mk_msg('ret', 2, fds=1),
+        mk_msg('ret', 2, fds=1, wrap='v'),
         mk_msg('call', 3, fds=3, hperm=(2, 0, 1), endian='B'),
         mk_msg('empty', 4, endian='B'),
         mk_msg('sig', 5, fds=2, hperm=(1, 0)),
@@ -33,7 +33,7 @@ def fd_instance():
 def fd_handshake_instance():
     # descriptors may arrive while the receiver is still in line mode (same read as BEGIN)
     return Instance('server', [b'AUTH ANONYMOUS', b'BEGIN'], [
-        mk_msg('call', 1, fds=2), mk_msg('sig', 2, fds=1, endian='B'), mk_msg('call', 3, fds=1),
+        mk_msg('call', 1, fds=2), mk_msg('sig', 2, fds=1, endian='B', wrap='none'), mk_msg('call', 3, fds=1),
     ], 'fdh')
 
 
